@@ -49,6 +49,17 @@ impl Builder {
     where
         R: 'static + io::BufRead,
     {
+        // Detection below inspects what a single `fill_buf` returns, which may be arbitrarily few
+        // bytes (e.g. the first write into a pipe). So first gather a prefix large enough to hold
+        // the magic numbers and a whole BGZF block, and put it back in front of the reader.
+        const DETECT_PREFIX_LEN: u64 = 1 << 16;
+        let mut prefix = Vec::new();
+        reader
+            .by_ref()
+            .take(DETECT_PREFIX_LEN)
+            .read_to_end(&mut prefix)?;
+        let mut reader = io::Cursor::new(prefix).chain(reader);
+
         let compression_method = match self.compression_method {
             Some(compression_method) => compression_method,
             None => CompressionMethod::detect(&mut reader)?,
